@@ -386,7 +386,16 @@ def normalise(events):
     return out
 
 
-def execute(tree, plan, caller_scope=None, hook=True, prebuilt=None):
+class BigTok(Tok):
+    """a root target whose repr is long (gets truncated in traces) and not ASCII"""
+    def __repr__(self):
+        return 't0<' + '\u00e9\u4e16' * 90 + '>'
+
+    def __len__(self):
+        return 7
+
+
+def execute(tree, plan, caller_scope=None, hook=True, prebuilt=None, big_root=False):
     """run the real library on the realisation of tree; returns dict(out, log, events, error).
     prebuilt: (spec, run, index) of an earlier execute() -- evaluates the SAME spec objects again"""
     if prebuilt is not None:
@@ -405,7 +414,11 @@ def execute(tree, plan, caller_scope=None, hook=True, prebuilt=None):
         kw['scope'] = caller_scope
     try:
         try:
-            res = _glom_fn(Tok((0,)), spec, **kw)
+            root = Tok((0,))
+            if big_root:
+                root = object.__new__(BigTok)
+                root.ident, root.eqclass = (0,), (0,)
+            res = _glom_fn(root, spec, **kw)
             out = {'out': 'ok', 'error': None}
         except GlomError as e:
             out = {'out': 'err', 'error': e}
